@@ -52,7 +52,7 @@ CHECKS = {
         "timeout": {"quick": 1200, "thorough": 14000},
     },
     "C03": {
-        "scenarios": [("C03-close", "vsim"), ("C03-stuck", "vsim"), ("C03-cut", "vsim"), ("C03-late", "vsim")],
+        "scenarios": [("C03-close", "vsim"), ("C03-stuck", "vsim"), ("C03-cut", "vsim"), ("C03-late", "vsim"), ("C03-slow", "vsim")],
         "rule": "closer (client or server) writes a generated size sequence and closes after 0..2 s; peer reads to the end; TCP: "
                 "chunk schedule x bounded pipe x slow reader; UDP: positional faults on the datagrams in flight at close time (drop/"
                 "delay of one of the last data segments, of a middle segment so that the close overtakes it, drop/delay/duplicate of "
